@@ -251,9 +251,46 @@ func (w *vfWorld) NewProxy(flags ...string) (*vfProxy, error) {
 var vfBuildMu sync.Mutex // option loading uses package-level state (viper/pflag, logger): build instances one at a time
 
 func (w *vfWorld) NewProxyAlpha(alphaYAML string, flags ...string) (*vfProxy, error) {
+	return w.NewProxyRaw(alphaYAML, vfMergeFlags(w.BaseFlags(), flags...))
+}
+
+// AlphaBaseFlags: the legacy flags that remain legal next to an alpha config (providers, upstreams, injected
+// headers and server settings then live in the YAML; see AlphaYAML for a matching skeleton).
+func (w *vfWorld) AlphaBaseFlags() []string {
+	return []string{"--cookie-secret=" + vfSecret32, "--email-domain=*", "--cookie-secure=false",
+		"--standard-logging=false", "--auth-logging=false", "--request-logging=false"}
+}
+
+// AlphaYAML renders a minimal alpha configuration for the world's IdP; upstreams / extra are YAML fragments
+// (top-level keys) supplied by the caller, e.g. upstreams = "upstreamConfig:\n  upstreams:\n  - id: main\n    path: /\n    uri: http://…\n".
+// NB: the file is environment-substituted by the loader: write a regexp capture reference as $$1.
+func (w *vfWorld) AlphaYAML(upstreams, extra string) string {
+	if upstreams == "" {
+		upstreams = "upstreamConfig:\n  upstreams:\n  - id: main\n    path: /\n    uri: " + w.Up.URL() + "\n"
+	}
+	return upstreams + `server:
+  BindAddress: "-"
+providers:
+- id: oidc
+  provider: oidc
+  clientID: cid
+  clientSecret: sec
+  loginURLParameters: []
+  oidcConfig:
+    issuerURL: ` + w.IdP.Issuer + `
+    insecureSkipNonce: false
+    audienceClaims: [aud]
+    emailClaim: email
+    groupsClaim: groups
+    userIDClaim: sub
+` + extra
+}
+
+// NewProxyRaw builds an instance from exactly the given arguments (no BaseFlags merged in).
+func (w *vfWorld) NewProxyRaw(alphaYAML string, args []string) (*vfProxy, error) {
 	vfBuildMu.Lock()
 	defer vfBuildMu.Unlock()
-	args := vfMergeFlags(w.BaseFlags(), flags...)
+	args = append([]string{}, args...)
 	alphaPath := ""
 	if alphaYAML != "" {
 		w.mu.Lock()
